@@ -137,6 +137,7 @@ func (e *Enc) instr(fr *Frame, st *State, ins ssa.Instruction) {
 		mt := ins.Type().Underlying().(*types.Map)
 		id := c.BVOp("bvadd", st.Alloc, e.bv64(1))
 		st.Alloc = id
+		e.setHeap(st, "ghost:objtype", c.Store(e.objTypeHeap(st), id, e.typeID(mt)))
 		dn := mapDomHeap(mt)
 		ds := smt.Array(smt.BV(64), smt.Array(mapKeySort(mt), smt.Bool))
 		dh := e.heap(st, dn, ds)
@@ -228,7 +229,7 @@ func (e *Enc) unop(fr *Frame, st *State, ins *ssa.UnOp) *Val {
 		loc := e.locOf(x, ins.X.Type())
 		e.checkNonNil(fr, st, loc, ins.Pos(), "nil-deref")
 		v := e.load(st, loc)
-		if wf := e.wellFormed(v, loc.Typ, st.Alloc); !wf.IsTrue() {
+		if wf := e.wellFormed(v, loc.Typ, st); !wf.IsTrue() {
 			e.assume(st, wf)
 		}
 		if ins.CommaOk {
@@ -701,7 +702,7 @@ func (e *Enc) lookup(fr *Frame, st *State, ins *ssa.Lookup) *Val {
 		return &Val{T: c.App("strbyte", smt.BV(8), x.T, i)}
 	}
 	dom, val := e.mapRead(st, mt, x.T, e.valTerm(k))
-	if wf := e.wellFormed(val, mt.Elem(), st.Alloc); !wf.IsTrue() {
+	if wf := e.wellFormed(val, mt.Elem(), st); !wf.IsTrue() {
 		e.assume(st, wf)
 	}
 	if ins.CommaOk {
@@ -759,7 +760,7 @@ func (e *Enc) next(fr *Frame, st *State, ins *ssa.Next) *Val {
 	dom, val := e.mapRead(st, mt, it.T, k)
 	e.assume(st, c.Implies(ok, dom))
 	e.note("map iteration order in %s modelled as arbitrary (no exactly-once tracking)", fnName(fr.Fn))
-	if wf := e.wellFormed(val, mt.Elem(), st.Alloc); !wf.IsTrue() {
+	if wf := e.wellFormed(val, mt.Elem(), st); !wf.IsTrue() {
 		e.assume(st, wf)
 	}
 	return &Val{Tup: []*Val{{T: ok}, {T: k}, {T: val}}}
